@@ -27,6 +27,16 @@ class Fork(Exception):
     pass
 
 
+class UnknownBool:
+    """result of a comparison the domain cannot decide; deciding it (bool) raises UnknownTruth -> both outcomes are explored"""
+
+    def __init__(self, why):
+        self.why = why
+
+    def __bool__(self):
+        raise UnknownTruth(self.why)
+
+
 class Raised(Exception):
     """the interpreted program raised an exception"""
 
@@ -34,6 +44,7 @@ class Raised(Exception):
         Exception.__init__(self, f'{exc_type}: {message}')
         self.exc_type, self.message, self.node, self.fn = exc_type, message, node, fn
         self.where = None
+        self.path = None
 
 
 class _Return(Exception):
@@ -177,6 +188,15 @@ class Interp:
     def callers(self):
         return [f.fn.qual for f in self.stack if f.fn]
 
+    def call_path(self):
+        """[(function qual, file:line, statement text)] from the outermost analysed function to the current point"""
+        out = []
+        for f in self.stack:
+            if f.fn is None or f.node is None:
+                continue
+            out.append((f.fn.qual, f'{self.repo.relfile(f.fn.file)}:{getattr(f.node, "lineno", 0)}', norm_text(f.node, 100)))
+        return out
+
     # ------------------------------------------------------------------ truth
     def truth(self, v, node=None):
         try:
@@ -193,6 +213,8 @@ class Interp:
                 self.fork_log.append(desc)
                 raise Fork()
             self.fork_log.append(desc + (self.choices[k],))
+            if self.domain is not None and hasattr(self.domain, 'on_branch'):
+                self.domain.on_branch(self, node, v, self.choices[k])
             return self.choices[k]
 
     # ------------------------------------------------------------------ calls
@@ -259,8 +281,14 @@ class Interp:
             return self.call_fn(f, args, kwargs)
         if callable(f):
             try:
+                if self.domain is not None and hasattr(self.domain, 'on_native'):
+                    self.domain.on_native(f, args, kwargs)
                 return f(*args, **kwargs)
-            except (UnknownTruth, Fork, Raised, AnalysisError, _Return):
+            except Raised as r:
+                if r.where is None:
+                    r.where, r.node, r.fn, r.path = self.where(), node or self.cur_node(), self.cur_fn(), self.call_path()
+                raise
+            except (UnknownTruth, Fork, AnalysisError, _Return):
                 raise
             except (TypeError, ValueError, IndexError, KeyError, ZeroDivisionError, AttributeError) as e:
                 # a native/python-level error while running a builtin or a transfer function on concrete data
@@ -272,6 +300,7 @@ class Interp:
             return AnalysisError(str(e))
         r = Raised(type(e).__name__, str(e), node or self.cur_node(), self.cur_fn())
         r.where = self.where()
+        r.path = self.call_path()
         return r
 
     def call_local(self, lf, args, kwargs):
@@ -469,6 +498,8 @@ class Interp:
             # repository classes define no in-place operators: x op= y rebinds x to x.__op__(y)
             res = self.binop(st.op, cur, v, st)
         elif inplace and hasattr(cur, inplace) and not isinstance(cur, (int, float, complex, str, tuple)):
+            if self.domain is not None and hasattr(self.domain, 'on_native'):
+                self.domain.on_native(None, (cur, v), {})
             res = getattr(cur, inplace)(v)
             if res is NotImplemented:
                 res = self.binop(st.op, cur, v, st)
@@ -550,6 +581,7 @@ class Interp:
             name = e.id
         r = Raised(name, msg, st, self.cur_fn())
         r.where = self.where()
+        r.path = self.call_path()
         raise r
 
     def s_Try(self, st):
@@ -639,7 +671,13 @@ class Interp:
                 if self.domain.on_setitem(self, base, idx, v, t):
                     return
             try:
+                if self.domain is not None and hasattr(self.domain, 'on_native'):
+                    self.domain.on_native(None, (base, idx, v), {})
                 base[idx] = v
+            except Raised as r:
+                if r.where is None:
+                    r.where, r.node, r.fn, r.path = self.where(), t, self.cur_fn(), self.call_path()
+                raise
             except (UnknownTruth, Fork, AnalysisError):
                 raise
             except (TypeError, IndexError, KeyError, ValueError) as e:
@@ -683,8 +721,14 @@ class Interp:
             if r is not NotImplemented:
                 return r
         try:
+            if self.domain is not None and hasattr(self.domain, 'on_native'):
+                self.domain.on_native(None, (base, idx), {})
             return base[idx]
-        except (UnknownTruth, Fork, AnalysisError, Raised):
+        except Raised as r:
+            if r.where is None:
+                r.where, r.node, r.fn, r.path = self.where(), e, self.cur_fn(), self.call_path()
+            raise
+        except (UnknownTruth, Fork, AnalysisError):
             raise
         except (TypeError, IndexError, KeyError, ValueError) as ex:
             raise self.native_error(ex, e)
@@ -725,8 +769,14 @@ class Interp:
                     return self.call_fn(fn, [a], {}, self_obj=b)
             raise Raised('TypeError', f'unsupported operand type(s) for {name}', node, self.cur_fn())
         try:
+            if self.domain is not None and hasattr(self.domain, 'on_native'):
+                self.domain.on_native(None, (a, b), {})
             return BINOPS[type(op)](a, b)
-        except (UnknownTruth, Fork, AnalysisError, Raised):
+        except Raised as r:
+            if r.where is None:
+                r.where, r.node, r.fn, r.path = self.where(), node, self.cur_fn(), self.call_path()
+            raise
+        except (UnknownTruth, Fork, AnalysisError):
             raise
         except (TypeError, ValueError, ZeroDivisionError, IndexError, OverflowError) as ex:
             raise self.native_error(ex, node)
@@ -739,6 +789,8 @@ class Interp:
         if isinstance(e.op, ast.Not):
             return not self.truth(v, e)
         if isinstance(e.op, ast.USub):
+            if self.domain is not None and hasattr(self.domain, 'on_native'):
+                self.domain.on_native(None, (v,), {})
             return -v
         if isinstance(e.op, ast.UAdd):
             return +v
@@ -747,17 +799,16 @@ class Interp:
         raise AnalysisError('unsupported unary operator')
 
     def e_BoolOp(self, e):
-        if isinstance(e.op, ast.And):
-            v = True
-            for x in e.values:
-                v = self.ev(x)
-                if not self.truth(v, x):
-                    return v
-            return v
-        v = False
+        # an operand whose truth had to be chosen (undecidable) is replaced by the chosen boolean, so that it is decided only once
+        is_and = isinstance(e.op, ast.And)
+        v = is_and
         for x in e.values:
             v = self.ev(x)
-            if self.truth(v, x):
+            before = self.used
+            t = self.truth(v, x)
+            if self.used != before:
+                v = t
+            if t != is_and:
                 return v
         return v
 
@@ -776,8 +827,12 @@ class Interp:
                 r = not self.contains(right, left)
             else:
                 try:
+                    if self.domain is not None and hasattr(self.domain, 'on_native'):
+                        self.domain.on_native(None, (left, right), {})
                     r = CMPOPS[type(op)](left, right)
-                except (UnknownTruth, Fork, AnalysisError, Raised):
+                except UnknownTruth as u:
+                    r = UnknownBool(u.why)
+                except (Fork, AnalysisError, Raised):
                     raise
                 except TypeError as ex:
                     raise self.native_error(ex, e)
